@@ -29,6 +29,20 @@ func TextAlphaFor(alpha string) []byte {
 	return out
 }
 
+// TextAlphaBoundary adds the bytes just inside and just outside every class and range boundary
+// (digits, upper, lower, the word class, whitespace) so that off-by-one class limits are visible.
+func TextAlphaBoundary(alpha string) []byte {
+	out := []byte(alpha)
+	out = append(out, []byte("09/:AZ@[az`{_ \t\n\r\x0b")...)
+	for i := 0; i < len(alpha); i++ {
+		out = append(out, alpha[i]+1, alpha[i]-1)
+		if alpha[i] >= 'a' && alpha[i] <= 'z' {
+			out = append(out, alpha[i]-32)
+		}
+	}
+	return out
+}
+
 func spansOf(ms []wire.Match) [][2]int {
 	out := make([][2]int, len(ms))
 	for i, m := range ms {
@@ -269,4 +283,64 @@ func expensiveFloor(r *drv.Run) {
 	if r.Counter("skipped_expensive")*50 > r.Counter("runs_total")+50 {
 		r.Inconclusive(fmt.Sprintf("too many cases skipped for exceeding the step budget: %d", r.Counter("skipped_expensive")))
 	}
+}
+
+// ---- nested variable comparison (named loops) ------------------------------------------
+
+// normWire turns reported variables into nested Go values, dropping iteration maps that hold
+// nothing (vore opens an empty map for an iteration before it knows whether it will run).
+func normWire(v *wire.Var) any {
+	if v == nil {
+		return map[string]any{}
+	}
+	if !v.IsMap {
+		return string(v.Str)
+	}
+	m := map[string]any{}
+	for k, e := range v.Map {
+		n := normWire(e)
+		if mm, ok := n.(map[string]any); ok && len(mm) == 0 {
+			continue
+		}
+		m[k] = n
+	}
+	return m
+}
+
+func normRefVal(v ref.Val) any {
+	if !v.IsMap {
+		return v.S
+	}
+	m := map[string]any{}
+	for k, e := range v.M {
+		n := normRefVal(e)
+		if mm, ok := n.(map[string]any); ok && len(mm) == 0 {
+			continue
+		}
+		m[k] = n
+	}
+	return m
+}
+
+func normRefTree(t map[string]ref.Val) any {
+	return normRefVal(ref.Val{IsMap: true, M: t})
+}
+
+func fmtNested(v any) string {
+	switch x := v.(type) {
+	case string:
+		return fmt.Sprintf("%q", x)
+	case map[string]any:
+		ks := make([]string, 0, len(x))
+		for k := range x {
+			ks = append(ks, k)
+		}
+		sort.Strings(ks)
+		parts := make([]string, len(ks))
+		for i, k := range ks {
+			parts[i] = k + ":" + fmtNested(x[k])
+		}
+		return "{" + strings.Join(parts, " ") + "}"
+	}
+	return "?"
 }
